@@ -26,11 +26,12 @@ Idx(kind) == {i \in DOMAIN Rec : Rec[i].k = kind}
 Valid(e) == e.pkg.parsed /\ e.pkg.ver = 1 /\ e.pkg.sum = e.pkg.hsum
 
 \* What the PROPERTY says must be an error, read off the faulted text by a generic JSON parser: it is
-\* not JSON, or states another version, or its stored checksum or its content (price, stored aggregates,
+\* not JSON, or states another version than the package that was written (the written one is supported by
+\* definition; which other versions are supported is not for the check to know), or its stored checksum or its content (price, stored aggregates,
 \* number / sequence / any field of the orders) is no longer that of the package that was written.
 \* (the two re-encodings the harness constructs as content-preserving - pretty printing, documented
 \*  spelling aliases of enum values - are by construction not alterations)
-MustErr(e) == e.f \notin {"same-pretty", "same-alias"} /\ (~e.j.parsed \/ e.j.ver # 1 \/ ~e.j.sumsame \/ ~e.j.contentsame)
+MustErr(e) == e.f \notin {"same-pretty", "same-alias"} /\ (~e.j.parsed \/ ~e.j.versame \/ ~e.j.sumsame \/ ~e.j.contentsame)
 
 LineOk(e) ==
   IF e.k = "pkg" THEN e.res = "ok" /\ e.same
